@@ -290,6 +290,46 @@ def go_build(cmd, race=False, tags="verif", timeout=1200):
     return rc == 0 and out.exists(), out, so + se
 
 
+# ------------------------------------------------------------------ static tie: source skeleton
+
+def skeleton_tie(prop, set_name):
+    """Static tie shared by the engines with a hand-written model: the syntactic skeleton (harness/cmd/ruextract-core,
+    file set `set_name`) of the modelled functions in the current tree must be the one the model was written against
+    (engines/skeleton_<set>.json, regenerated by tools/mkskeleton.py).  Returns (obligation dict, failures)."""
+    import difflib
+    exp_path = VERIF / "engines" / f"skeleton_{set_name}.json"
+    name = f"source skeleton (ruextract-core --set {set_name}) of the modelled functions = the skeleton the model was written against"
+    ok, binary, log = go_build("ruextract-core")
+    if not ok:
+        return {"name": name, "ok": False}, [failure("tie", f"{prop}/tie/source-skeleton/extractor-build",
+                                                     "ruextract-core does not build: " + log[-800:], {"log": log[-3000:]}, False)]
+    rc, out, err = run([str(binary), "--repo", str(REPO), "--set", set_name], timeout=120)
+    if rc != 0:
+        return {"name": name, "ok": False}, [failure(
+            "tie", f"{prop}/tie/source-skeleton/extractor-rejects-source",
+            "ruextract-core cannot parse the modelled files of the current tree: " + err[-800:], {"stderr": err[-3000:]}, False)]
+    cur = {f["name"]: f for f in json.loads(out)}
+    exp = {f["name"]: f for f in json.loads(exp_path.read_text())["functions"]}
+    fails = []
+    for nm in sorted(set(cur) | set(exp)):
+        a, b = exp.get(nm), cur.get(nm)
+        if a and b and a["sha256"] == b["sha256"]:
+            continue
+        if a is None:
+            what, diff = "new function/declaration in a modelled file", b["tokens"][:40]
+        elif b is None:
+            what, diff = "function/declaration removed from a modelled file", a["tokens"][:40]
+        else:
+            what = "body differs from the one the model mirrors"
+            diff = [l for l in difflib.unified_diff(a["tokens"], b["tokens"], "modelled", "current", lineterm="", n=2)][:60]
+        fails.append(failure(
+            "tie", f"{prop}/tie/source-skeleton/{nm}",
+            f"{nm}: {what}; the hand-written model is no longer known to mirror this function (checks, bounds, collaborator "
+            "calls, slice/map operations; renames and log/error texts are ignored):\n" + "\n".join(diff),
+            {"no_longer_checks": "correspondence model <-> " + nm, "function": nm, "what": what, "diff": diff}, False))
+    return {"name": name + f" ({len(exp)} functions/declarations)", "ok": not fails}, fails
+
+
 # ------------------------------------------------------------------ results
 
 def failure(kind, signature, detail, replay, found_input):
